@@ -101,6 +101,40 @@ template Delta(n) {
 MAIN_A = "component main = Alpha(2);\n"
 MAIN_B = "component main = Gamma(2);\n"
 
+# third audit: shapes no base had — a custom template, a parallel template, definitions with 0 / 2 / 3 parameters, a named
+# file WITHOUT definitions (pragma + include + main component only), the included file behind `-L`
+USER_D = """pragma circom 2.0.0;
+pragma custom_templates;
+include "lib.circom";
+template custom Gate(n) {
+    signal input in;
+    signal output out;
+    out <== in * n;
+}
+template parallel Par(n, m) {
+    signal input in;
+    signal output out;
+    out <== in * (n + m);
+}
+function sum3(a, b, c) {
+    return a + b + c;
+}
+template Zero() {
+    signal input in;
+    signal output out;
+    component p = Par(1, 2);
+    p.in <== in;
+    component h = Helper(3);
+    h.in <== p.out;
+    out <== h.out + sum3(1, 2, 3);
+}
+"""
+
+MAIN_ONLY = """pragma circom 2.0.0;
+include "d.circom";
+component main = Zero();
+"""
+
 TOKEN = re.compile(r'"[^"]*"|[A-Za-z_][A-Za-z_0-9]*|\d+|<==|==>|<--|-->|===|==|\+\+|[{}()\[\];,.=+*<>/-]')
 
 
@@ -120,24 +154,106 @@ def bases():
     out.append(("prog2r", {"a.circom": USER_A, "b.circom": b_inc_a + MAIN_B, "lib.circom": LIB}, ["a.circom", "b.circom"]))
     out.append(("chain3", {"a.circom": USER_A, "b.circom": b_inc_a, "c.circom": USER_C, "lib.circom": LIB},
                 ["a.circom", "b.circom", "c.circom"]))
+    # third audit
+    out.append(("custom1", {"d.circom": USER_D, "lib.circom": LIB}, ["d.circom"]))
+    out.append(("mainonly", {"m.circom": MAIN_ONLY, "d.circom": USER_D, "lib.circom": LIB}, ["m.circom", "d.circom"]))
+    out.append(("minusL", {"a.circom": USER_A + MAIN_A, "vendor/lib.circom": LIB}, ["a.circom"], ["vendor"]))
+    return [b if len(b) == 4 else b + ([],) for b in out]
+
+
+def random_bases(rng, n):
+    """Per seed: n clean projects whose shape is drawn — 1..3 named files, each with 1..3 definitions (templates with
+    0..2 parameters, plain / parallel / custom; functions with 1..3 parameters), instantiating each other and the
+    included file, which is next to them or behind `-L`; with or without a main component. Whether they are clean is
+    checked at run time like for the fixed bases (a random base that is not clean is dropped and counted)."""
+    out = []
+    for bi in range(n):
+        nuser = rng.choice([1, 2, 2, 3])
+        behind_l = rng.random() < 0.4
+        libname = "vendor/lib.circom" if behind_l else "lib.circom"
+        files = {libname: LIB}
+        templates = [("Helper", 1)]
+        argv = []
+        for ui in range(nuser):
+            name = "r%d.circom" % ui
+            lines = ["pragma circom 2.0.0;"]
+            defs = []
+            has_custom = False
+            for di in range(rng.randint(1, 3)):
+                if rng.random() < 0.3:
+                    k = rng.randint(1, 3)
+                    ps = ["a%d" % j for j in range(k)]
+                    defs.append("function f%d_%d(%s) {\n    return %s + 1;\n}" % (ui, di, ", ".join(ps), " + ".join(ps)))
+                else:
+                    k = rng.randint(0, 2)
+                    ps = ["n%d" % j for j in range(k)]
+                    flavour = rng.choice(["", "", "parallel ", "custom "])
+                    has_custom |= flavour == "custom "
+                    body = ["signal input in;", "signal output out;"]
+                    factor = " + ".join(["1"] + ps)
+                    if templates and flavour != "custom " and rng.random() < 0.6:
+                        t, ar = rng.choice(templates)
+                        body += ["component c = %s(%s);" % (t, ", ".join(["2"] * ar)), "c.in <== in;", "out <== c.out * (%s);" % factor]
+                    else:
+                        body.append("out <== in * (%s);" % factor)
+                    tname = "T%d_%d" % (ui, di)
+                    defs.append("template %s%s(%s) {\n    %s\n}" % (flavour, tname, ", ".join(ps), "\n    ".join(body)))
+                    templates.append((tname, k))
+            if has_custom:
+                lines.append("pragma custom_templates;")
+            lines.append('include "lib.circom";')
+            if ui and rng.random() < 0.5:
+                lines.append('include "r%d.circom";' % (ui - 1))
+            files[name] = "\n".join(lines + defs) + "\n"
+            argv.append(name)
+        # references to templates of later files need their include: only earlier ones are referenced (list order), and a file
+        # that references an earlier file's template includes it
+        for ui in range(1, nuser):
+            name = "r%d.circom" % ui
+            for uj in range(ui):
+                if re.search(r"= T%d_\d+\(" % uj, files[name]) and 'include "r%d.circom";' % uj not in files[name]:
+                    files[name] = files[name].replace('include "lib.circom";', 'include "lib.circom";\ninclude "r%d.circom";' % uj, 1)
+        if rng.random() < 0.5:
+            t, ar = rng.choice([x for x in templates if x[0] != "Helper"] or templates)
+            owner = [a for a in argv if re.search(r"template (?:parallel |custom )?%s\(" % t, files[a])]
+            files[owner[0] if owner else argv[-1]] += "component main = %s(%s);\n" % (t, ", ".join(["2"] * ar))
+        rng.shuffle(argv)
+        out.append(("rand%d" % bi, files, argv, ["vendor"] if behind_l else []))
     return out
+
+
+DEF_HEAD = re.compile(r"(template|function)(?:\s+(?:custom|parallel))*\s+(\w+)\s*\(([^)]*)\)")
 
 
 def def_spans(text):
     """(kind, name, start of header, end of parameter list) of the definitions of a clean source."""
-    return [(m.group(1), m.group(2), m.start(), m.end())
-            for m in re.finditer(r"(template|function)\s+(\w+)\s*\(([^)]*)\)", text)]
+    return [(m.group(1), m.group(2), m.start(), m.end()) for m in DEF_HEAD.finditer(text)]
 
 
-def injections(ctx):
+def lib_key(files):
+    return next((k for k in files if k.endswith("lib.circom")), None)
+
+
+def a_main_for(files, prefer):
+    """`component main = T(2, ..);` for a template of file `prefer` (or, if it has none, of any file)."""
+    for name in [prefer] + sorted(files):
+        for m in DEF_HEAD.finditer(files.get(name, "")):
+            if m.group(1) == "template":
+                ar = len([x for x in m.group(3).split(",") if x.strip()])
+                return "component main = %s(%s);\n" % (m.group(2), ", ".join(["2"] * ar))
+    return "component main = Helper(2);\n"
+
+
+def injections(ctx, all_bases):
     """-> list of (Project, class, unconditional?) built from the clean bases."""
     quick = ctx.tier == "quick"
     out = []
-
-    def add(tag, files, argv, cls, uncond=True, raw=None, libs=(), note=None):
-        out.append((e2e.Project(files, argv, libs=libs, tag=tag, meta={"class": cls, "note": note}, raw=raw), cls, uncond))
-    for btag, files, argv in bases():
+    for btag, files, argv, blibs in all_bases:
+        def add(tag, files, argv, cls, uncond=True, raw=None, libs=None, note=None, blibs=blibs):
+            out.append((e2e.Project(files, argv, libs=blibs if libs is None else libs, tag=tag, meta={"class": cls, "note": note}, raw=raw),
+                        cls, uncond))
         user = [a for a in argv]
+        LIBF = lib_key(files)
         # 1. missing file at every argv position (with and without the .circom suffix handled separately)
         for pos in range(len(argv) + 1):
             add("%s-missing@%d" % (btag, pos), files, argv[:pos] + ["nosuchfile.circom"] + argv[pos:], "missing-file")
@@ -149,38 +265,49 @@ def injections(ctx):
             add("%s-nonutf8@%d" % (btag, pos), files, argv[:pos] + ["bad.circom"] + argv[pos:], "unreadable-file", raw={"bad.circom": bad})
         for u in user:
             f2 = dict(files)
-            f2[u] = f2[u].replace("pragma circom 2.0.0;\n", 'pragma circom 2.0.0;\ninclude "bad.circom";\n', 1)
+            f2[u] = f2[u].replace('include "', 'include "bad.circom";\ninclude "', 1)
             add("%s-include-nonutf8-%s" % (btag, u), f2, argv, "unreadable-file", raw={"bad.circom": bad})
         # 2b. an include statement of a named file that resolves nowhere (relative, in a missing directory, absolute)
         for u in user:
             for k, inc in enumerate(("nothere.circom", "nodir/nothere.circom", "/nonexistent-root/nothere.circom")):
                 f2 = dict(files)
-                f2[u] = f2[u].replace("pragma circom 2.0.0;\n", 'pragma circom 2.0.0;\ninclude "%s";\n' % inc, 1)
+                f2[u] = f2[u].replace('include "', 'include "%s";\ninclude "' % inc, 1)
                 add("%s-unresolved-include%d-%s" % (btag, k, u), f2, argv, "unresolved-include")
         # chmod 000 (only meaningful when not running as root; decided at run time)
         add("%s-chmod000" % btag, dict(files, **{"locked.circom": "pragma circom 2.0.0;\ntemplate Y() { signal input a; signal output b; b <== a; }\n"}),
             argv + ["locked.circom"], "unreadable-file", uncond=False, note="chmod000")
         # 3. unsupported compiler version in every user file / in the included file
         for ver in ("2.1.5", "3.0.0", "1.0.0", "2.2.0"):
-            for u in user + ["lib.circom"]:
+            for u in user + [LIBF]:
                 f2 = dict(files)
                 f2[u] = f2[u].replace("pragma circom 2.0.0;", "pragma circom %s;" % ver, 1)
-                add("%s-pragma-%s-%s" % (btag, ver, u), f2, argv, "bad-pragma")
+                # C02's text speaks of the files NAMED on the command line: a bad pragma of a file that is only included is
+                # injected for the correspondence of the version check (and today reported), but a tree that does not report
+                # it is not charged with a silent failure (third audit: the oracle asked for more than the property says)
+                add("%s-pragma-%s-%s" % (btag, ver, u.replace("/", "_")), f2, argv, "bad-pragma" if u in user else "bad-pragma-included-only",
+                    uncond=u in user)
         # 3b. NOT failures (third pass, for the correspondence of Model.FrontStages.check_compiler_version only): the boundary
         # versions the check accepts (the project must stay clean) and a file without pragma (a warning, no error)
         for ver in ("2.1.4", "2.1.0", "2.0.9"):
             f2 = dict(files)
             f2[user[0]] = f2[user[0]].replace("pragma circom 2.0.0;", "pragma circom %s;" % ver, 1)
             add("%s-okpragma-%s-%s" % (btag, ver, user[0]), f2, argv, "supported-pragma", uncond=False)
-        for u in user[:1] + ["lib.circom"]:
+        for u in user[:1] + [LIBF]:
             f2 = dict(files)
             f2[u] = f2[u].replace("pragma circom 2.0.0;\n", "", 1)
-            add("%s-nopragma-%s" % (btag, u), f2, argv, "no-pragma", uncond=False)
+            add("%s-nopragma-%s" % (btag, u.replace("/", "_")), f2, argv, "no-pragma", uncond=False)
+        # 3c. (third audit, AUDIT.md section 0, first bullet) a lexical error in a file that is ONLY INCLUDED and whose templates
+        # the named files use: the report is located solely in the included file and is hidden by design (C19 / C03); C02's
+        # text speaks of the named files. Generated, observed (per_class), never a violation of C02.
+        for k, tail in enumerate(("\n/* unterminated", "\n@\n")):
+            f2 = dict(files)
+            f2[LIBF] = f2[LIBF] + tail
+            add("%s-included-only-lexical%d" % (btag, k), f2, argv, "included-only-parse-error", uncond=False)
         # 4. lexical / syntactic error at each token of each user file
         for u in user:
             toks = list(TOKEN.finditer(files[u]))
             # the bases added for the include-order shapes repeat the sources of lib2/prog2: every third token in quick
-            step = 3 if quick and btag in ("lib2r", "prog2r", "chain3") else 1
+            step = 3 if quick and (btag in ("lib2r", "prog2r", "chain3", "mainonly", "minusL") or btag.startswith("rand")) else 1
             for ti in range(0, len(toks), step):
                 m = toks[ti]
                 src = files[u]
@@ -222,7 +349,7 @@ def injections(ctx):
                 params = src[src.index("(", s) + 1:e - 1]
                 first = params.split(",")[0].strip()
                 f2 = dict(files)
-                f2[u] = src[:e - 1] + ", " + first + src[e - 1:]
+                f2[u] = src[:e - 1] + (", " + first if first else "q, q") + src[e - 1:]
                 add("%s-%s-%s-dupparam" % (btag, u, name), f2, argv, "duplicate-parameter")
                 body_start = src.index("{", e) + 1
                 f3 = dict(files)
@@ -233,13 +360,12 @@ def injections(ctx):
             f2 = dict(files)
             for u in user:
                 if "component main" not in f2[u]:
-                    first_t = [n for k, n, _, _ in def_spans(f2[u]) if k == "template"][0]
-                    f2[u] += "component main = %s(2);\n" % first_t
+                    f2[u] += a_main_for(f2, u)
             add("%s-mains-all-user" % btag, f2, argv, "several-mains")
         f2 = dict(files)
-        if "component main" not in f2[user[0]]:
-            f2[user[0]] += "component main = %s(2);\n" % [n for k, n, _, _ in def_spans(f2[user[0]]) if k == "template"][0]
-        f2["lib.circom"] = LIB + "component main = Helper(2);\n"
+        if not any("component main" in f2[u] for u in user):
+            f2[user[0]] += a_main_for(f2, user[0])
+        f2[LIBF] = LIB + "component main = Helper(2);\n"
         add("%s-main-in-include" % btag, f2, argv, "several-mains")
         # 8. duplicate definitions: same file / two files; with a main (Merger) and without (TemplateLibrary)
         for u in user:
@@ -256,10 +382,32 @@ def injections(ctx):
                 cut = src.find("component main")
                 cut = len(src) if cut < 0 else cut
                 f2[u] = src[:cut] + "\n" + src[s:i] + "\n" + src[cut:]
-                add("%s-%s-%s-dup-samefile" % (btag, u, name), f2, argv, "duplicate-definition", uncond=False)
+                add("%s-%s-%s-dup-samefile" % (btag, u, name), f2, argv, "duplicate-definition")
                 f3 = dict(files)
-                f3["extra.circom"] = "pragma circom 2.0.0;\n" + src[s:i] + "\n"
-                add("%s-%s-%s-dup-otherfile" % (btag, u, name), f3, argv + ["extra.circom"], "duplicate-definition", uncond=False)
+                f3["extra.circom"] = "pragma circom 2.0.0;\n" + ("pragma custom_templates;\n" if "custom" in src[s:e] else "") + src[s:i] + "\n"
+                add("%s-%s-%s-dup-otherfile" % (btag, u, name), f3, argv + ["extra.circom"], "duplicate-definition")
+                # third audit (AUDIT.md section 0, second bullet): the copy lives in the file that is ONLY INCLUDED (the
+                # Merger labels both definitions, so the report is located in the named file too); a function against a
+                # template of the same name (one name space)
+                f4 = dict(files)
+                f4[LIBF] = files[LIBF] + src[s:i].replace("custom ", "") + "\n"
+                add("%s-%s-%s-dup-in-included" % (btag, u, name), f4, argv, "duplicate-definition")
+                f5 = dict(files)
+                clash = ("function %s(a) {\n    return a + 1;\n}\n" % name if kind == "template" else
+                         "template %s(n) {\n    signal input in;\n    signal output out;\n    out <== in * n;\n}\n" % name)
+                f5[u] = src[:cut] + "\n" + clash + src[cut:]
+                add("%s-%s-%s-dup-clash" % (btag, u, name), f5, argv, "duplicate-definition")
+        # ... and the reverse: a name of the included-only file defined again in a named file (one main / library mode)
+        for u in user:
+            for kind, name, s2, e2 in def_spans(files[LIBF]):
+                src = files[u]
+                cut = src.find("component main")
+                cut = len(src) if cut < 0 else cut
+                again = ("template %s(n) {\n    signal input in;\n    signal output out;\n    out <-- in * n;\n    out === in * n;\n}\n" % name
+                         if kind == "template" else "function %s(a) {\n    return a + 2;\n}\n" % name)
+                f6 = dict(files)
+                f6[u] = src[:cut] + "\n" + again + src[cut:]
+                add("%s-%s-%s-dup-of-included-name" % (btag, u, name), f6, argv, "duplicate-definition")
         # the open question of DESIGN §4: arguments without the .circom suffix
         add("%s-nosuffix-missing" % btag, files, argv + ["nosuchfile.txt"], "non-circom-argument", uncond=False)
         # (its own template: since the repair the file is read, and a copy of b.circom would be a duplicate definition)
@@ -280,11 +428,11 @@ MATRIX_CLASS_ALIAS = {"lexical-error": "SyntaxError"}
 
 # classes the matrix can only inject conditionally (the inserted statement / the copied definition may leave a valid
 # program): their table check is made on the injections that apply (the in-process pipeline reports an error-level problem)
-CONDITIONAL_ONLY = ("InvalidTupleOrAnonymous", "DuplicateDefinition")
+CONDITIONAL_ONLY = ("InvalidTupleOrAnonymous",)
 
 
 # injected for the correspondence of the version check only: no failure class of the property text
-NOT_FAILURES = ("supported-pragma", "no-pragma")
+NOT_FAILURES = ("supported-pragma", "no-pragma", "included-only-parse-error", "bad-pragma-included-only", "custom-template")
 
 
 def coq_class(cls):
@@ -315,6 +463,8 @@ def producers(t, pf_code_id, codes):
             out.add("ShMultipleMain")
         elif form == "sugar" and r["id"] in (codes["tuple"]["id"], codes["anonymous"]["id"]) and in_user:
             out.add("ShSugarError")
+        elif form == "duplicate" and r["id"] == codes["same_symbol"]["id"] and in_user:
+            out.add("ShDuplicate")
         elif in_user:
             out.add("ShOtherInNamedFile")
     for d in t.defs:
@@ -339,13 +489,30 @@ def run(ctx, proofs):
     common.build_model("e2e")
     base = e2e.scratch_dir("C02")
     kf_nosuffix = [k for k in ctx.known if k["id"] == "C02-non-circom-argument"]
-    kf_dup = [k for k in ctx.known if k["id"] == "C02-duplicate-definition-library"]
     try:
-        inj = injections(ctx)
+        # third audit: besides the fixed bases, bases whose shape is drawn per seed (kept if the binary finds them clean)
+        rand_stats = {"wanted": 2 if ctx.tier == "quick" else 6, "drawn": 0, "not_clean_dropped": 0}
+        rbases = []
+        for cand in random_bases(ctx.rng, 3 * rand_stats["wanted"]):
+            if len(rbases) >= rand_stats["wanted"]:
+                break
+            rand_stats["drawn"] += 1
+            pc = e2e.Project(cand[1], cand[2], libs=cand[3], tag="probe").write(base, 90000 + rand_stats["drawn"])
+            rc, out, _ = e2e.run_cli(cli, pc.abs_argv(), e2e.cli_args(libs=pc.abs_libs()), cwd=pc.dir)
+            if clean_claim(e2e.parse_stdout(out), rc):
+                rbases.append(("rand%d" % len(rbases),) + tuple(cand[1:]))
+            else:
+                rand_stats["not_clean_dropped"] += 1
+        rand_stats["shapes"] = [{"argv": b[2], "libs": b[3], "definitions": sorted(n for f in b[1].values() for n in c02front.scan_definitions(f)),
+                                 "custom": sum(f.count("template custom") for f in b[1].values()),
+                                 "parallel": sum(f.count("template parallel") for f in b[1].values()),
+                                 "main": any("component main" in f for f in b[1].values())} for b in rbases]
+        all_bases = bases() + rbases
+        inj = injections(ctx, all_bases)
         projects = []
         # the clean bases themselves + corpus witnesses
-        for btag, files, argv in bases():
-            projects.append(e2e.Project(files, argv, tag="base-" + btag, meta={"class": "clean"}))
+        for btag, files, argv, blibs in all_bases:
+            projects.append(e2e.Project(files, argv, libs=blibs, tag="base-" + btag, meta={"class": "clean"}))
         nbase = len(projects)
         for rec in e2e.load_corpus("C02"):
             p = e2e.project_from_description(rec)
@@ -377,6 +544,8 @@ def run(ctx, proofs):
         matrix_only = sorted(c for c, (_, dv, _) in coq_table.items() if dv == "Assumed")
         stage_stats = front_stats.pop("stage")
         metas_broken = stage_stats.pop("metas_hypothesis_broken")
+        model_wf_broken = stage_stats.pop("wf_project_broken")
+        defs_file_broken = stage_stats.pop("defs_file_hypothesis_broken")
         stage_codes = stage_stats["codes"]
         # hypothesis wf_project of the theorems (one definition per (kind, name)), on the definitions of every ground truth
         wf_holds, wf_broken = 0, []
@@ -392,35 +561,55 @@ def run(ctx, proofs):
         for i in range(len(projects)):
             runs.append({"p": i, "level": "warning", "omit_level": True, "allow": [], "verbose": True, "sarif": True})
             runs.append({"p": i, "level": "warning", "omit_level": True, "allow": [], "verbose": False, "sarif": False})
+        # third audit: non-default options. `--level error` and an allow list of NEAR MISSES of the ids of the error-level
+        # reports of the project (proper prefixes such as `P`, case variants, the empty string, unknown ids): by the property
+        # text none of them is `the id` of the report, so the error must still be displayed. At least OPT_PER_CLASS projects
+        # of every class (drawn per seed), every corpus witness.
+        OPT_PER_CLASS = 12 if ctx.tier == "quick" else 40
+        by_class = {}
+        for k in range(nbase, len(projects)):
+            by_class.setdefault(inj[k - nbase][1], []).append(k)
+        opt_runs_of = {}
+        for cls, ks in sorted(by_class.items()):
+            for k in (ks if len(ks) <= OPT_PER_CLASS else ctx.rng.sample(ks, OPT_PER_CLASS)):
+                t = truths[k]
+                ids = sorted({t.payload[q][0]["id"] for q in t.produced() if t.payload[q][0]["level"] == "error"}) if not t.bad else []
+                miss = e2e.near_miss_allows(ids or [pf_code["id"]], ctx.rng)
+                short = [m for m in miss if ids and any(i.startswith(m) for i in ids)]       # proper prefixes first
+                allow = (short[:1] + [m for m in miss if m not in short[:1]])[:ctx.rng.randint(1, 3)]
+                runs.append({"p": k, "level": "error", "allow": allow, "verbose": ctx.rng.random() < 0.5, "sarif": ctx.rng.random() < 0.5,
+                             "option_variant": True})
+                opt_runs_of.setdefault(k, []).append(len(runs) - 1)
         dis, fail = e2e.evaluate(cli, projects, truths, runs)
-        # The same name defined in two files: which definition survives / is blamed depends on the hash order of the
-        # HashMap<FileID, ..> (known finding D22, property C17), so the in-process ground truth of the harness and the
-        # binary's own parse may legitimately differ. Those projects are judged by the C02 oracle below only.
-        cross = {i for i, p in enumerate(projects) if p.tag.endswith("-dup-otherfile")}
-        cross_dropped = {"projects": len(cross), "disagreements_not_judged": sum(d["run"]["p"] in cross for d in dis),
-                         "contract_failures_not_judged": sum(f["run"]["p"] in cross for f in fail)}
-        dis = [d for d in dis if d["run"]["p"] not in cross]
-        fail = [f for f in fail if f["run"]["p"] not in cross]
         # the bases must be clean, otherwise the matrix shows nothing
+        base_silent = []
         for i in range(nbase):
             for r in runs[2 * i:2 * i + 2]:
                 if not clean_claim(r["events"], r["exit"]):
                     ctx.violation("a base project of the injection matrix is not clean: %s" % projects[i].tag,
                                   {"broken": "lib/props/C02.py bases()", "events": [list(e) for e in r["events"]][:10]}, no_input=True)
+                else:
+                    # the clean verdict of a base must be justified too (every definition of its named files analysed)
+                    problems = clean_problems(projects[i], truths[i], r)
+                    if problems:
+                        base_silent.append({"run": e2e.run_brief(r), "project": projects[i].describe(), "class": "clean",
+                                            "what": ["`No issues found.` with exit 0 although " + "; ".join(problems)]})
         # ---- the C02 oracle
         per_class = {}
-        silent = []
+        silent = list(base_silent)
         known_hits = {}
         table_mismatch = []
-        table_stats = {"checked": 0, "skipped_conditional_injection": 0, "skipped_no_coq_class": {}, "skipped_known_finding": 0,
+        table_stats = {"checked": 0, "skipped_conditional_injection": 0, "skipped_no_coq_class": {},
                        "skipped_truth_unavailable": 0, "coq_classes_checked": {}}
         for (p, cls, uncond), k in zip(inj, range(nbase, len(projects))):
             t = truths[k]
             st = per_class.setdefault(cls, {"injected": 0, "applicable": 0, "reported": 0, "silent": 0, "still_clean_and_valid": 0})
             st["injected"] += 1
-            for r in runs[2 * k:2 * k + 2]:
+            for r in runs[2 * k:2 * k + 2] + [runs[j] for j in opt_runs_of.get(k, [])]:
                 if r["exit"] not in (0, 1):
                     continue                       # already a failure of the contract (judge)
+                if r.get("option_variant"):
+                    st["option_variant_runs"] = st.get("option_variant_runs", 0) + 1
                 err = has_error(r["events"]) and r["exit"] != 0
                 # does the injected class apply? unconditional ones always; the others when the in-process
                 # pipeline itself reports an error-level problem or drops a definition
@@ -430,8 +619,12 @@ def run(ctx, proofs):
                     applicable = truth_err
                 if p.meta.get("note") == "chmod000":
                     applicable = not p.meta.get("readable_anyway", True)
-                if cls == "duplicate-definition":
-                    applicable = True              # a definition is dropped whichever way it is detected
+                if cls in NOT_FAILURES:
+                    # no failure class of the property text (which speaks of the files NAMED on the command line): what the
+                    # tool does is observed and counted, and the clean verdict is still judged by clean_problems
+                    applicable = False
+                    st["observed_error_displayed"] = st.get("observed_error_displayed", 0) + int(err)
+                    st["observed_clean_verdict"] = st.get("observed_clean_verdict", 0) + int(clean_claim(r["events"], r["exit"]))
                 if cls == "non-circom-argument":
                     # since the repair C02-non-circom-argument (fix a7109ba) a named path that is not a directory
                     # is an input file whatever its suffix: a missing one must be reported; an existing one is
@@ -440,23 +633,18 @@ def run(ctx, proofs):
                 if applicable and r is runs[2 * k]:
                     cc = coq_class(cls)
                     truth_err = not t.bad and any(t.payload[q][0]["level"] == "error" for q in t.produced())
-                    # the known finding: in library mode (also the fall-back of a program whose archive cannot be built) the
-                    # copy is dropped without any report; where the pipeline does report, the form of the report is checked
-                    kf_case = cls == "duplicate-definition" and not t.bad and t.t.get("mode") == "library" and not truth_err
                     if t.bad:
                         table_stats["skipped_truth_unavailable"] += 1
                     elif cc not in coq_table:
                         table_stats["skipped_no_coq_class"][cls] = table_stats["skipped_no_coq_class"].get(cls, 0) + 1
                     elif not uncond and cc not in CONDITIONAL_ONLY:
                         table_stats["skipped_conditional_injection"] += 1
-                    elif kf_case:
-                        table_stats["skipped_known_finding"] += 1
                     if not t.bad:
                         prods = producers(t, pf_code["id"], stage_codes)
                         for q in prods:
                             st.setdefault("manifests_by", {}).setdefault(q, 0)
                             st["manifests_by"][q] += 1
-                        if (uncond or cc in CONDITIONAL_ONLY) and cc in coq_table and not kf_case:
+                        if (uncond or cc in CONDITIONAL_ONLY) and cc in coq_table:
                             want = coq_table[cc][2]
                             table_stats["checked"] += 1
                             table_stats["coq_classes_checked"][cc] = table_stats["coq_classes_checked"].get(cc, 0) + 1
@@ -474,8 +662,6 @@ def run(ctx, proofs):
                                         % (cls, p.tag, r["exit"], [e for e in r["events"] if e[0] == "log"][-1:])]}
                         if cls == "non-circom-argument" and kf_nosuffix:
                             known_hits["C02-non-circom-argument"] = kf_nosuffix[0]["what"]
-                        elif cls == "duplicate-definition" and kf_dup and t.t.get("mode") == "library":
-                            known_hits["C02-duplicate-definition-library"] = kf_dup[0]["what"]
                         else:
                             silent.append(rec)
                 # clean verdict only if everything was read and analysed
@@ -486,8 +672,6 @@ def run(ctx, proofs):
                                "what": ["`No issues found.` with exit 0 although " + "; ".join(problems)]}
                         if cls == "non-circom-argument" and kf_nosuffix:
                             known_hits["C02-non-circom-argument"] = kf_nosuffix[0]["what"]
-                        elif cls == "duplicate-definition" and kf_dup and t.t.get("mode") == "library":
-                            known_hits["C02-duplicate-definition-library"] = kf_dup[0]["what"]
                         elif rec not in silent:
                             silent.append(rec)
                     else:
@@ -535,15 +719,16 @@ def run(ctx, proofs):
             elif proofs["failures"]:
                 ctx.violation("proof obligations of C02 no longer check: " + "; ".join(proofs["failures"])[:500],
                               {"broken": "props/C02.v", "failures": proofs["failures"]}, no_input=True)
-            elif canon_broken or wf_broken or metas_broken:
+            elif canon_broken or wf_broken or metas_broken or model_wf_broken or defs_file_broken:
                 which = ("canon idempotent (forall p c, canon p = Some c -> canon c = Some c)" if canon_broken else
-                         "wf_project" if wf_broken else
-                         "body_in_file (every meta of a definition's body lies in the file of the definition)")
-                d = (canon_broken or wf_broken or metas_broken)[0]
+                         "wf_project" if (wf_broken or model_wf_broken) else
+                         "body_in_file (every meta of a definition's body lies in the file of the definition)" if metas_broken else
+                         "defs_file_ok (every definition the parser yields for the i-th file of the FileLibrary carries file id i)")
+                lst = canon_broken or wf_broken or model_wf_broken or metas_broken or defs_file_broken
+                d = lst[0]
                 ctx.violation("hypothesis `%s` of the theorems of props/C02.v does not hold on %d explored projects, first %s"
-                              % (which, len(canon_broken or wf_broken or metas_broken), d.get("tag")),
-                              {"broken": "hypothesis " + which, "project": d,
-                               "count": len(canon_broken or wf_broken or metas_broken)}, no_input=True)
+                              % (which, len(lst), d.get("tag")),
+                              {"broken": "hypothesis " + which, "project": d, "count": len(lst)}, no_input=True)
             else:
                 never = sorted(c for c in coq_table if not table_stats["coq_classes_checked"].get(c))
                 if never:
@@ -585,7 +770,14 @@ def run(ctx, proofs):
             "hypotheses_evaluated": {
                 "canon_idempotent": {"holds": front_stats["canon_idempotent"], "broken": len(canon_broken),
                                      "on": "the canonicalisation table of every project the front comparison encodes"},
-                "wf_project": {"holds": wf_holds, "broken": len(wf_broken), "on": "the definitions of every ground truth"},
+                "wf_project": {"holds": stage_stats["wf_project_holds"], "broken": len(model_wf_broken),
+                               "on": "the definitions the MODEL hands to the runner (the library its Merger / TemplateLibrary mirror keeps of "
+                                     "ALL definitions the single-file parser yields, duplicates included: "
+                                     "front_stages.projects_with_a_name_defined_twice of them contain a duplicate); "
+                                     "also on the keys of the in-process ground truth (always distinct: HashMap keys)",
+                               "on_the_ground_truth": {"holds": wf_holds, "broken": len(wf_broken)}},
+                "defs_file_ok": {"holds": stage_stats["defs_file_hypothesis_holds"], "broken": len(defs_file_broken),
+                                 "on": "every definition of every file of every project the stage comparison encodes"},
                 "body_in_file": {"holds": stage_stats["metas_hypothesis_holds"], "broken": len(metas_broken),
                                  "on": "every meta of every definition the parser yields for the files of every project the stage "
                                        "comparison encodes (Model.FrontStages.meta_in_file, evaluated by the extracted driver)"},
@@ -597,11 +789,15 @@ def run(ctx, proofs):
                 "parse_files_returns_Ok": "a model run that is not `ok` differs from the ground truth and is a front disagreement",
                 "analysis_order": "judged per run by lib/e2e.py judge(): the analysed definitions are a permutation of the "
                                   "definitions of the user files (a failure of the property text otherwise)",
-                "pf_id_not_allow_listed": "every run of the matrix has an empty allow list",
+                "pf_id_not_allow_listed": "the default runs have an empty allow list; the option-variant runs allow near misses of the "
+                                          "error ids only (strings that are not the id), checked by construction (e2e.near_miss_allows)",
                 "failure_event": "derived classes: the file-system / syntax-tree fact is what the injection creates; that the model "
                                  "sees it is part of the front comparison (reports equal). Not evaluated as a Coq predicate",
             },
-            "cross_file_duplicates_not_judged_by_correspondence": cross_dropped,
+            "random_bases": rand_stats,
+            "option_variant_runs": len([r for r in runs if r.get("option_variant")]),
+            "option_variant_samples": [r["allow"] for r in runs if r.get("option_variant")][:: max(1, len(opt_runs_of) // 6)][:6],
+            "included_only_parse_error_observed": per_class.get("included-only-parse-error"),
             "samples": [{"tag": p.tag, "class": c, "argv": p.argv} for p, c, _ in inj[:: max(1, len(inj) // 4)][:4]],
         })
         ctx.assumptions += [
@@ -677,17 +873,26 @@ def clean_problems(p, t, r):
                 problems.append("%s %s of %s was not analysed" % (kind, name, a))
             if cnt > 1:
                 problems.append("%s %s is defined %d times in %s, one definition was dropped" % (kind, name, cnt, a))
-    # the same name defined in two named files: one definition is dropped
-    seen = {}
-    for a in p.argv:
+    # the same name (templates and functions share one name space) defined twice among the files that were read, one of the
+    # definitions in a named file: one definition is dropped (Merger / TemplateLibrary keep the first)
+    named_paths = {os.path.realpath(os.path.join(p.dir, a)): a for a in p.argv}
+    read = dict(named_paths)
+    if not t.bad:
+        for f in t.t["files"]:
+            read.setdefault(f["path"], os.path.relpath(f["path"], p.dir))
+    where = {}
+    for path, shown in sorted(read.items()):
         try:
-            text = open(os.path.join(p.dir, a)).read()
+            text = open(path, "rb").read().decode("utf-8")
         except (OSError, UnicodeDecodeError):
             continue
-        for kind, name, _, _ in def_spans(text):
-            if name in seen and seen[name] != a:
-                problems.append("%s is defined in %s and in %s, one definition was dropped" % (name, seen[name], a))
-            seen.setdefault(name, a)
+        for name in c02front.scan_definitions(text):
+            where.setdefault(name, []).append((path, shown))
+    for name, places in sorted(where.items()):
+        if len(places) > 1 and any(pth in named_paths for pth, _ in places):
+            msg = "%s is defined %d times (%s), one definition was dropped" % (name, len(places), ", ".join(sh for _, sh in places))
+            if not any(name + " is defined" in x or " %s is defined" % name in x for x in problems):
+                problems.append(msg)
     if not t.bad:
         for d in t.defs:
             if d["user"] and d["err"] is not None:
@@ -712,6 +917,34 @@ def replay(ctx, rep):
             return 1 if fdis else 0
         finally:
             shutil.rmtree(base, ignore_errors=True)
-    rc = e2e.replay_project(dict(rep, run=dict(rep.get("run") or {}, level="warning", allow=[], verbose=True, sarif=True)))
-    print("class:", rep.get("project", {}).get("meta", {}).get("class"))
-    return rc
+    # the recorded run with ITS options (third audit: the replay used to force the default options and to ask the C03
+    # contract only, so a silent failure or an `--allow P` run did not reproduce), judged by the C02 oracle as in run()
+    cli = common.build_cli()
+    base = e2e.scratch_dir("replay")
+    try:
+        p = e2e.project_from_description(rep["project"]).write(base, 0)
+        t = e2e.Truth(e2e.ground_truth([p])[0])
+        r = dict(rep.get("run") or {"level": "warning", "omit_level": True, "allow": [], "verbose": True, "sarif": True})
+        r["p"] = 0
+        r.pop("exit", None)
+        dis, fail = e2e.evaluate(cli, [p], [t], [r])
+        cls = (rep.get("project", {}).get("meta") or {}).get("class")
+        print("argv:", p.argv, "libs:", p.libs, "options:", {k: r.get(k) for k in ("level", "omit_level", "allow", "verbose", "sarif")})
+        print("exit status:", r["exit"])
+        for e in r["events"]:
+            print("  ", e)
+        print("class:", cls)
+        oracle = []
+        uncond = (rep.get("project", {}).get("meta") or {}).get("unconditional", cls not in NOT_FAILURES + ("clean", "corpus", None))
+        truth_err = not t.bad and any(t.payload[q][0]["level"] == "error" for q in t.produced())
+        if cls not in NOT_FAILURES and (uncond or truth_err) and not (has_error(r["events"]) and r["exit"] != 0) \
+                and not any(t.payload[q][0]["id"] in r["allow"] for q in ([] if t.bad else t.produced()) if t.payload[q][0]["level"] == "error"):
+            oracle.append("failure class `%s` injected but no error-level report displayed / exit %s" % (cls, r["exit"]))
+        if clean_claim(r["events"], r["exit"]):
+            oracle += clean_problems(p, t, r)
+        print("model disagreements:", dis[0]["what"] if dis else "none")
+        print("output contract    :", fail[0]["what"] if fail else "holds")
+        print("C02 oracle         :", oracle if oracle else "holds")
+        return 1 if (dis or fail or oracle) else 0
+    finally:
+        shutil.rmtree(base, ignore_errors=True)
